@@ -372,6 +372,9 @@ def check(ctx: Ctx) -> None:
         else:
             ctx.ok()
 
+    # set_label as an operation of the same state machine: stores what it is given (or refuses), '' clears
+    from .c16 import label_validation_rule
+    label_validation_rule(ctx, model, "R14.1")
     # R14.2 key selection: every default getter used by reset_parameters addresses exactly the requested keys
     _reset_key_selection(ctx, model)
 
